@@ -371,14 +371,16 @@ def header_rules(ctx):
     headers.match_writer(ctx, f"{P}.H-WRITE", gh, items, oracle)
     # domain tuple
     env = rules.local_env(gh.node)
-    gs = [n for n in walk_no_nested(gh.node) if isinstance(n, ast.Assign) and norm(n.targets[0]) == "gs_str"]
-    ap = [norm(n) for n in walk_no_nested(gh.node) if isinstance(n, ast.Expr) and "gridsize_str.append" in norm(n)]
-    ok = len(gs) == 1 and norm(gs[0].value) == "[f'{gs - 1}' for gs in self.grid_sizes[level]]" and \
-        ap in ([norm(ast.parse(t).body[0]) for t in [a]] for a in
-               ("gridsize_str.append('((0,0,0) (' + ','.join(gs_str) + ') (0,0,0))')",
-                "gridsize_str.append(f\"((0,0,0) ({','.join(gs_str)}) (0,0,0))\")"))
+    # naming independent: the appended text with its locals substituted
+    denv = rules.local_env(gh.node)
+    ap = [rules.deep(n.value.args[0], denv, gh.params) for n in walk_no_nested(gh.node)
+          if isinstance(n, ast.Expr) and isinstance(n.value, ast.Call) and norm(n.value.func) == "gridsize_str.append"
+          and n.value.args]
+    want = norm(ast.parse("f\"((0,0,0) ({','.join([f'{gs - 1}' for gs in self.grid_sizes[level]])}) (0,0,0))\"",
+                          mode="eval").body)
+    ok = ap == [want]
     ctx.check(ok, f"{P}.H-WRITE", gh.site, "domain tuple per level is ((0,0,0) (n-1,..) (0,0,0))",
-              f"domain tuple built by {[norm(g.value) for g in gs]} / {ap}", key="domain-tuple")
+              f"domain tuple built as {ap}", key="domain-tuple")
     ctx.check(len(prog.func(CR, "CheckpointReader.__init__", P).params) >= 2, f"{P}.H-WRITE", gh.site, "reader present", "")
     # level header writer: fresh Cell_H
     lh = prog.func(CK, "chk2plt.write_level_header", P)
